@@ -69,6 +69,9 @@ func detModel() *model.Schema {
 	return &model.Schema{Query: "Q", Types: []*model.TypeDef{
 		{Kind: model.KEnum, Name: "Ea", Values: []*model.EnumVal{{Name: "VA"}, {Name: "VB"}, {Name: "VC"}, {Name: "VD"}, {Name: "VE"}, {Name: "VF"}}},
 		{Kind: model.KEnum, Name: "Eb", Values: []*model.EnumVal{{Name: "VA"}, {Name: "VB"}}},
+		// six names for one internal value: which of them a resolver's 7 is written as must not depend on anything but the schema
+		{Kind: model.KEnum, Name: "Al", Values: []*model.EnumVal{{Name: "AL3", Internal: model.Int(7)}, {Name: "AL1", Internal: model.Int(7)}, {Name: "AL6", Internal: model.Int(7)},
+			{Name: "AL2", Internal: model.Int(7)}, {Name: "AL5", Internal: model.Int(7)}, {Name: "AL4", Internal: model.Int(7)}}},
 		{Kind: model.KInput, Name: "Na", InputFields: []*model.ArgDef{arg("pa", "Int!"), arg("pb", "Int!"), arg("pc", "Int!"), arg("pd", "Int!"), arg("pe", "Ea"), arg("pf", "[Int!]")}},
 		{Kind: model.KInput, Name: "Nb", InputFields: []*model.ArgDef{arg("pa", "Int"), arg("pb", "Na")}},
 		{Kind: model.KIface, Name: "Ia", Fields: []*model.FieldDef{f("ia", "String"), f("ib", "Int"), f("ic", "String"), f("id", "String")}},
@@ -77,7 +80,7 @@ func detModel() *model.Schema {
 		// no type resolver, members not in name order: with isTypeOf answering true for every value
 		// (LooseTypeOf) the first member asked wins, so the order of asking shows in the response
 		{Kind: model.KUnion, Name: "Ub", Members: []string{"Td", "Tb", "Ta"}},
-		{Kind: model.KObject, Name: "Q", Fields: append([]*model.FieldDef{f("ia", "Ia"), f("ua", "Ua"), f("ub", "Ub"), f("lb", "[Ub]"), f("la", "[Ia]"), f("ta", "Ta"), f("tb", "Tb"),
+		{Kind: model.KObject, Name: "Q", Fields: append([]*model.FieldDef{f("ia", "Ia"), f("ua", "Ua"), f("ub", "Ub"), f("lb", "[Ub]"), f("la", "[Ia]"), f("ta", "Ta"), f("tb", "Tb"), f("al", "Al"), f("als", "[Al]"),
 			f("na", "String", arg("x", "Na"), arg("y", "Nb"), arg("z", "Ea")), f("t1", "String"), f("t2", "String"), f("t3", "String"), f("t4", "String"), f("t5", "String")}, many...)},
 	}}
 }
@@ -98,6 +101,8 @@ var detRequests = []string{
 	`{ fa fb fc ta { ia ib } ua { ... on Ta { ia } ... on Tb { ib } } }`, `{ na(x: {pa:1, pb:2, pc:3, pd:4, pe: VA, pf: [1,2]}, z: VB) }`,
 	// the order in which possible types are asked, before and after they were listed
 	`{ ub { __typename ... on Ta { ia } ... on Td { ib } } lb { __typename } ia { __typename } }`, `{ __type(name: "Ub") { possibleTypes { name } } a: __type(name: "Ia") { possibleTypes { name } } }`,
+	// an internal value that several enum names share
+	`{ al als }`, `{ __type(name: "Al") { enumValues { name } } al }`,
 	// several rules at once
 	`query A { fx ...F } query A { fy } fragment F on Q { ...F ta } fragment G on Zz { a }`,
 }
